@@ -117,7 +117,7 @@ func (db *RockDB) resetWithNewKVValue(ts int64, rawKey []byte, value []byte, ttl
 	// the key may hold a HyperLogLog that is still cached (possibly with unflushed PFADDs):
 	// overwriting the value must drop it, otherwise PFCOUNT keeps answering from the cache
 	// and a later flush of the cache writes the old HyperLogLog over the new value
-	db.delPFCache(rawKey)
+	db.delPFCacheOnCommit(rawKey)
 	oldHeader, err := db.expiration.decodeRawValue(KVType, nil)
 	if err != nil {
 		return nil, err
@@ -714,7 +714,7 @@ func (db *RockDB) SetRange(ts int64, rawKey []byte, offset int, value []byte) (i
 	} else if realV == nil {
 		db.IncrTableKeyCount(keyInfo.Table, 1, db.wb)
 	}
-	db.delPFCache(rawKey)
+	db.delPFCacheOnCommit(rawKey)
 	extra := offset + len(value) - len(realV)
 	if extra > 0 {
 		realV = append(realV, make([]byte, extra)...)
@@ -795,7 +795,7 @@ func (db *RockDB) Append(ts int64, rawKey []byte, value []byte) (int64, error) {
 		// the old content is dead, start from empty
 		realV = nil
 	}
-	db.delPFCache(rawKey)
+	db.delPFCacheOnCommit(rawKey)
 	if len(realV)+len(value) > MaxValueSize {
 		return 0, errValueSize
 	}
